@@ -112,11 +112,11 @@ Example C04_wf_rejects :
   wf_schema ex_env (SMap SBool SAny None None) = false.
 Proof. vm_compute. split; reflexivity. Qed.
 
-(* ---------- appended by the C10 work package (Proofs/C10UseNoPanic.v, C10UseTerm.v, C10Usable.v) ----------
+(* ---------- appended by the C10 work package (Proofs/C10UseNoPanic.v, C10UseTerm.v, C10UseMain.v) ----------
    The theorems above hold under a weaker hypothesis than wf_schema.  wf_schema asks that every object of a
    scope is stored under its own id; no operation reads an object's id, and a scope received as a description
    (C10) guarantees this for its root only.  wf_use = wf_schema with "id = key" replaced by "is an object". *)
-From Verif Require Import Proofs.C10UseNoPanic Proofs.C10Usable.
+From Verif Require Import Proofs.C10UseNoPanic Proofs.C10UseMain.
 
 Theorem C04_wf_schema_iff_use : forall (e : env) (s : schema),
   wf_schema e s = true <-> wf_use e s = true /\ ids_ok e s = true.
